@@ -22,6 +22,23 @@ use serde_json::{json, Value};
 const PROP: &str = "C10";
 
 /// outcome of parse + evaluate of a text, for class comparison
+/// the DHW indicator of a result: Ok(value) / "err" / "panic"
+fn dhw(ep: &EnergyPerformance) -> Result<f64, String> {
+    match safe::guard(|| cteepbd::cte::fraccion_renovable_acs_nrb(ep)) {
+        Out::Ok(v) => Ok(v as f64),
+        Out::Err(..) => Err("err".into()),
+        Out::Panic(m) => Err(format!("panic: {m}")),
+    }
+}
+
+fn dhw_same(a: &Result<f64, String>, b: &Result<f64, String>, band: f64) -> bool {
+    match (a, b) {
+        (Ok(x), Ok(y)) => (x - y).abs() <= 2e-5 * x.abs().max(1.0) + band || (x.is_nan() && y.is_nan()),
+        (Err(x), Err(y)) => x == y,
+        _ => false,
+    }
+}
+
 fn run_text(text: &str, fac: &Factors, case: &Case) -> (String, Option<EnergyPerformance>) {
     match safe::parse_components(text) {
         Out::Ok(c) => match safe::eval(&c, fac, case.k, case.area, case.lm) {
@@ -128,6 +145,8 @@ pub fn check_case(ctx: &Ctx, case: &Case, rw: &Rewrite, repeats: usize, with_cli
     if let Some(ep) = &ep0 {
         orders.insert(observed_order(ep));
     }
+    let dhw0 = ep0.as_ref().map(dhw);
+    let dhw_band = dhw_noise_band(&case.spec).1;
     for i in 0..repeats {
         t.evaluations += 1;
         let (class, ep) = safe::fresh_thread(|| run_text(&text, &fac, case));
@@ -137,6 +156,14 @@ pub fn check_case(ctx: &Ctx, case: &Case, rw: &Rewrite, repeats: usize, with_cli
         }
         if let (Some(b), Some(ep)) = (&base, &ep) {
             orders.insert(observed_order(ep));
+            if let Some(d0) = &dhw0 {
+                let d1 = dhw(ep);
+                if !dhw_same(d0, &d1, dhw_band) {
+                    t.violation("C10.result_differs_between_runs", format!("the renewable DHW fraction of the same file is {:?} on one evaluation and {:?} on repetition {i}", d0, d1), || wit(json!({"first": format!("{:?}", d0), "repeat": format!("{:?}", d1)})));
+                    break;
+                }
+                t.count("dhw_indicator_repetitions_compared");
+            }
             let d = differences(b, &flat(ep), &rf, &Tol { atol: 1e-7, rtol: 2e-6 });
             if !d.is_empty() {
                 t.violation("C10.result_differs_between_runs", format!("repeating the evaluation of the same file changes {} field(s): {}", d.len(), d.iter().take(3).cloned().collect::<Vec<_>>().join("; ")), || wit(json!({"differences": d.len()})));
@@ -174,6 +201,17 @@ pub fn check_case(ctx: &Ctx, case: &Case, rw: &Rewrite, repeats: usize, with_cli
                 format!("rewriting the file ({}) changes {} field(s): {}", rw.names().join("+"), d.len(), d.iter().take(3).cloned().collect::<Vec<_>>().join("; ")),
                 || wit(json!({"rewritten_text": text2})),
             );
+        }
+        if let Some(d0) = &dhw0 {
+            let d2 = dhw(ep2);
+            // splitting lines changes summation order inside the indicator as well
+            if !dhw_same(d0, &d2, dhw_band + 2e-5) {
+                t.violation(
+                    &format!("C10.result_changes_with_layout.{}", rw.names().join("+")),
+                    format!("rewriting the file ({}) changes the renewable DHW fraction from {:?} to {:?}", rw.names().join("+"), d0, d2),
+                    || wit(json!({"rewritten_text": text2})),
+                );
+            }
         }
         // metadata and demands are declared data too
         let m1: Vec<(String, String)> = ep0.as_ref().unwrap().components.meta.iter().map(|m| (m.key.clone(), m.value.clone())).collect();
